@@ -9,6 +9,9 @@
 -/
 import CSD.Lemmas.Dups
 import CSD.Spec
+import CSD.Lemmas.FM8
+import CSD.Generated.Bodies
+import CSD.Model.SourceText
 
 namespace CSD.Props.C05
 open CSD CSD.Dups
@@ -26,5 +29,46 @@ def SubstringSearchStatement (locateSubstr : List Str → Str → Option (List N
 
 example : dedupAdj [2, 2, 5, 7, 7, 7] = [2, 5, 7] ∧ Spec.substrIds [[0x61, 0x62], [0x62]] [0x62] = [1, 2] := by
   decide
+
+
+/-! ### FM-index backward search -/
+
+/-- The backward search shared by `SSA::locate_id`, `SSA::locateP` and `SSA::locate` is total and exact:
+for every text `T`, every suffix array `L` of it (`IsSA`: the rows of `T` sorted by suffix — the sorting
+algorithm is not modelled), every index `ix` built from it and every non-empty pattern over `1 .. 255`,
+the result is the block `[lo, lo + occs)` of the rows whose suffix starts with the pattern (`lo` rows are
+below it), or reports that there is none; `occ`, `alphabet` and the BWT are read in bounds and no unsigned
+subtraction wraps. -/
+theorem backward_search_exact {T : List Nat} {L : List FM.Row} {ix : FM.Index} (hSA : FM.IsSA T L)
+    (hB : FM.Built T L ix) (pat : List Nat) (hne : pat ≠ []) (hall : ∀ c ∈ pat, c ≠ 0 ∧ c < 256) :
+    ∃ res, FM.bsearch ix pat = some res ∧ FM.BSpec L pat res :=
+  FM.bsearch_spec hSA hB pat hne hall
+
+/-- The number of rows in that block is the number of occurrences of the pattern in the text. -/
+theorem block_size_is_occurrence_count {T : List Nat} {L : List FM.Row} (hSA : FM.IsSA T L) (P : List Nat) :
+    FM.occs L P = FM.occurrences P T := FM.occs_eq_occurrences hSA P
+
+/-- Both hypotheses hold for what the model builds from any text. -/
+theorem backward_search_hypotheses_hold (T : List Nat) (step : Nat) :
+    FM.IsSA T (FM.sortRows T) ∧ FM.Built T (FM.sortRows T) (FM.buildIndex T (FM.sortRows T) step) :=
+  ⟨FM.isSA_sortRows T, FM.built_buildIndex step⟩
+
+example : FM.occurrences [97, 98] (FM.mkText [[0x61, 0x62], [0x62, 0x61, 0x62]]) = 2 := by decide
+
+/-- The FM-index models were written against the current text of the C++ functions they mirror. -/
+theorem fm_models_match_source_text :
+    Generated.body_SSA_locate_id = SourceText.body_SSA_locate_id ∧
+    Generated.body_SSA_locateP = SourceText.body_SSA_locateP ∧
+    Generated.body_SSA_locate = SourceText.body_SSA_locate ∧
+    Generated.body_SSA_extract_id = SourceText.body_SSA_extract_id ∧
+    Generated.body_SSA_build_index = SourceText.body_SSA_build_index ∧
+    Generated.body_SSA_build_bwt = SourceText.body_SSA_build_bwt ∧
+    Generated.body_FMINDEX_ctor = SourceText.body_FMINDEX_ctor ∧
+    Generated.body_FMINDEX_locate = SourceText.body_FMINDEX_locate ∧
+    Generated.body_FMINDEX_extract = SourceText.body_FMINDEX_extract ∧
+    Generated.body_FMINDEX_locatePrefix = SourceText.body_FMINDEX_locatePrefix ∧
+    Generated.body_FMINDEX_locateSubstr = SourceText.body_FMINDEX_locateSubstr ∧
+    Generated.body_FMINDEX_build_ssa = SourceText.body_FMINDEX_build_ssa :=
+  ⟨rfl, rfl, rfl, rfl, rfl, rfl, rfl, rfl, rfl, rfl, rfl, rfl⟩
 
 end CSD.Props.C05
